@@ -146,11 +146,16 @@ def rule_writers(ctx: Ctx) -> RuleResult:
     return rr
 
 
+_ROW_ALIASES: dict = {}
+
+
 def _grid_target(e):
-    """'grid' for self.term, 'row' for self.term[...], else None"""
+    """'grid' for self.term, 'row' for self.term[...] (or a local bound to it), else None"""
     t = ast.unparse(e)
     if t == "self.term":
         return "grid"
+    if isinstance(e, ast.Name) and e.id in _ROW_ALIASES:
+        return "row:" + _ROW_ALIASES[e.id]
     if isinstance(e, ast.Subscript) and ast.unparse(e.value) == "self.term" and not isinstance(e.slice, ast.Slice):
         return "row:" + ast.unparse(e.slice)
     return None
@@ -163,6 +168,11 @@ def rule_grid_shape(ctx: Ctx) -> RuleResult:
     for fi in p.all_class_functions(tc):
         if fi.name in SHAPE_EXEMPT:
             continue
+        # locals bound to a row of the grid (`line = self.term[y]`) are the row itself
+        _ROW_ALIASES.clear()
+        for n_ in fi.own_nodes():
+            if isinstance(n_, ast.Assign) and len(n_.targets) == 1 and isinstance(n_.targets[0], ast.Name) and isinstance(n_.value, ast.Subscript) and ast.unparse(n_.value.value) == "self.term" and not isinstance(n_.value.slice, ast.Slice):
+                _ROW_ALIASES[n_.targets[0].id] = ast.unparse(n_.value.slice)
 
         def scan(body):
             grow, shrink = {}, {}
@@ -461,6 +471,30 @@ def rule_linefeed_mirror(ctx: Ctx) -> RuleResult:
     return rr
 
 
+def rule_scroll_margin(ctx: Ctx) -> RuleResult:
+    """Whether writing moves the cursor down a line or scrolls is decided against the bottom margin of the scrolling
+    region (DECSTBM), and all sites that make that decision must agree: every forward `self.scroll()` of the
+    cursor-advancing functions is guarded by a comparison of the row with self.scrollregion_end (reverse ones with
+    scrollregion_start) - not with the screen height, which only coincides while the region is the whole screen."""
+    from ..rules.exc import ExcEngine
+
+    p = ctx.p
+    rr = RuleResult("SIB", "C15.13", "every scroll decision of linefeed / push_cursor compares the row with the scroll-region margin", floor=3)
+    for q in (f"{VT}.TermCanvas.linefeed", f"{VT}.TermCanvas.push_cursor"):
+        fi = p.func(q)
+        cfg = cfg_of(fi)
+        calls = nodes_where(cfg, lambda x: isinstance(x, ast.Call) and isinstance(x.func, ast.Attribute) and x.func.attr == "scroll" and isinstance(x.func.value, ast.Name) and x.func.value.id == fi.self_name)
+        for cn in calls:
+            call = next(x for x in ast.walk(cn.ast) if isinstance(x, ast.Call) and isinstance(x.func, ast.Attribute) and x.func.attr == "scroll")
+            rev = any(k.arg == "reverse" for k in call.keywords) or bool(call.args)
+            want = "scrollregion_start" if rev else "scrollregion_end"
+            guards = [t for t in cfg.nodes if t.kind == "test" and cn not in ExcEngine._reach_without_edge(cfg, t, "T") and isinstance(t.ast, ast.Compare)]
+            rr.inst(f"{short(fi)}:{norm(call, 30)}", True, {"function": short(fi), "scroll": norm(call, 30), "guards": [norm(g.ast, 50) for g in guards]})
+            if not any(want in ast.unparse(g.ast) for g in guards):
+                rr.add(finding("SIB", fi, cn.stmt, f"`{norm(call, 30)}` is decided by {[norm(g.ast, 40) for g in guards] or 'no comparison'}, not by a comparison with self.{want}: with a scroll region smaller than the screen (CSI t;b r) text that wraps on the margin leaves the region instead of scrolling it, while linefeed scrolls at the margin", construct=f"scroll not decided against {want}"))
+    return rr
+
+
 def run(ctx: Ctx):
     p = ctx.p
     tc = f"{VT}.TermCanvas"
@@ -481,6 +515,7 @@ def run(ctx: Ctx):
         rule_resize_state_order(ctx),
         rule_rotten_flag(ctx),
         rule_linefeed_mirror(ctx),
+        rule_scroll_margin(ctx),
     ]
     return out
 
@@ -489,6 +524,8 @@ from ..mutants import Mut  # noqa: E402
 
 _V = "urwid/vterm.py"
 MUTANTS = [
+    Mut("autowrap-scrolls-at-screen-bottom", "urwid/vterm.py", "TermCanvas.push_cursor", "                    if y >= self.scrollregion_end:", "                    if y >= self.height - 1:", "SIB|vterm.TermCanvas.push_cursor"),
+    Mut("dch-by-slice-overpads", "urwid/vterm.py", "TermCanvas.remove_chars", "        while chars > 0:\n            self.term[y].pop(x)\n            self.term[y].append(self.empty_char())\n            chars -= 1", "        line = self.term[y]\n        del line[x : x + chars]\n        line.extend([self.empty_char()] * chars)", "PAIR|vterm.TermCanvas.remove_chars"),
     Mut("rotten-flag-kept-at-last-column", "urwid/vterm.py", "TermCanvas.push_cursor", "            if x + 1 < self.width:\n                x += 1\n\n            self.is_rotten_cursor = False", "            if x + 1 < self.width:\n                x += 1\n                self.is_rotten_cursor = False\n", "PASS|vterm.TermCanvas.push_cursor"),
     Mut("reverse-linefeed-above-region-scrolls", "urwid/vterm.py", "TermCanvas.linefeed", "elif y == self.scrollregion_start:", "elif y <= self.scrollregion_start:", "SIB|vterm.TermCanvas.linefeed"),
     Mut("osc-strict-decode", _V, "TermCanvas.parse_osc", "decode(\"utf-8\", \"replace\")", "decode(\"utf-8\")", "EXC|", note="anchor depends on the fixed tree's decode call"),
